@@ -244,6 +244,7 @@ func genC04(g *Gen) {
 	p.Topos = []Topology{t}
 	g.swarmProxy()
 	g.cleanKernel()
+	p.Proxy.SeedAll = g.R.Pct(40)
 	cmds := LoadDocCommands().SingleKeyCmds()
 	nc := g.R.Range(1, 3)
 	for ci := 0; ci < nc; ci++ {
@@ -332,39 +333,7 @@ func checkC04(d *Driver, res *Result) {
 		}
 	}
 	// handshake on every backend connection
-	for _, bc := range d.C.Conns() {
-		node := t.ByAddr(bc.Node.Addr)
-		if node == nil || len(bc.Cmds) == 0 {
-			continue
-		}
-		want := []string{}
-		if d.P.Proxy.Password != "" {
-			want = append(want, "auth")
-		}
-		if !node.Master {
-			want = append(want, "readonly")
-		}
-		for i, w := range want {
-			if i >= len(bc.Cmds) || bc.Cmds[i].Name != w {
-				got := "nothing"
-				if i < len(bc.Cmds) {
-					got = bc.Cmds[i].Name
-				}
-				d.violate("C04", "handshake", map[string]string{"missing": w}, "connection #%d to %s (master=%v): command %d is %s, want %s", bc.ID, bc.Node.Addr, node.Master, i, got, w)
-				return
-			}
-			if w == "auth" && (len(bc.Cmds[i].Args) != 2 || string(bc.Cmds[i].Args[1]) != d.P.Proxy.Password) {
-				d.violate("C04", "handshake", map[string]string{"missing": "auth-password"}, "connection #%d to %s: wrong AUTH %q", bc.ID, bc.Node.Addr, clip(bc.Cmds[i].Raw, 80))
-				return
-			}
-		}
-		for i, r := range bc.Cmds {
-			if i >= len(want) && (r.Name == "auth" || r.Name == "readonly") {
-				d.violate("C04", "handshake", map[string]string{"extra": r.Name}, "connection #%d to %s (master=%v): unexpected %s as command %d", bc.ID, bc.Node.Addr, node.Master, r.Name, i)
-				return
-			}
-		}
-	}
+	d.checkHandshakes("C04", t)
 	d.StdReplyCheck("C04", Relax{})
 	d.Counters["c04_replica_reads"] = replicaReads
 	d.Counters["c04_slots_hit"] = len(slots)
@@ -969,4 +938,42 @@ func runC07perm(d *Driver, res *Result) {
 	res.Nontrivial = true
 	d.Counters["c07_enumerated_orders"] = 1
 	res.Sample = fmt.Sprintf("shape %d (%s, %d fragments), arrival order %v, first reply cut at %d", shape, c.Plan.Reqs[0].Cmd, k, order, cut)
+}
+
+// checkHandshakes: on every backend connection AUTH is the first command iff a password is configured, and on a connection to
+// a replica (per topology t) READONLY has been sent before the first forwarded client command. A connection opened while
+// the node's role was not known yet (seed servers) and used for topology probes only is not a replica connection in that sense.
+func (d *Driver) checkHandshakes(prop string, t *Topology) {
+	for _, bc := range d.C.Conns() {
+		node := t.ByAddr(bc.Node.Addr)
+		if node == nil || len(bc.Cmds) == 0 {
+			continue
+		}
+		if d.P.Proxy.Password != "" {
+			c0 := bc.Cmds[0]
+			if c0.Name != "auth" || len(c0.Args) != 2 || string(c0.Args[1]) != d.P.Proxy.Password {
+				d.violate(prop, "handshake", map[string]string{"missing": "auth"}, "connection #%d to %s: first command is %q, want AUTH with the configured password", bc.ID, bc.Node.Addr, clip(c0.Raw, 60))
+				return
+			}
+		}
+		readonly := false
+		for i, r := range bc.Cmds {
+			switch {
+			case r.Name == "auth" && (i > 0 || d.P.Proxy.Password == ""):
+				d.violate(prop, "handshake", map[string]string{"extra": "auth"}, "connection #%d to %s: unexpected AUTH as command %d", bc.ID, bc.Node.Addr, i)
+				return
+			case r.Name == "readonly":
+				if node.Master {
+					d.violate(prop, "handshake", map[string]string{"extra": "readonly"}, "connection #%d to master %s: unexpected READONLY", bc.ID, bc.Node.Addr)
+					return
+				}
+				readonly = true
+			case r.Kind == "data" || r.Kind == "redirect":
+				if !node.Master && !readonly {
+					d.violate(prop, "handshake", map[string]string{"missing": "readonly"}, "connection #%d to replica %s: %s arrived before any READONLY", bc.ID, bc.Node.Addr, r.Name)
+					return
+				}
+			}
+		}
+	}
 }
